@@ -10,7 +10,7 @@ ID = 'C09'
 RULE = ('Hypothesis search inputs, degenerate-biased: 1-4 geos, eligibility styles {none, all-control, all-treatment, '
         'all-excluded, fixed-heavy, mixed}, unsatisfiable or extreme constraints (size ranges beyond the geos, tolerances '
         '1e-3, unsatisfiable-low/high share and budget ranges, n_geos_max, iroas=0, n_pretest_max=n_test+3), plus the general '
-        'generator (<=6 geos) for breadth; both searches, each on a fresh object, under a CPU-time watchdog (20 s quick / 120 s thorough); plus accepted-but-unusual inputs (integer-valued float size ranges, tests of ~100 time points, bit-identical geos) and, in ~4% of the cases, 65-72 geos of which 3-4 are treatable, one control geo per design and a budget cap just above the dearest single geo (quick tier: exhaustive search only for these). '
+        'generator (<=6 geos) for breadth; both searches, each on a fresh object, under a CPU-time watchdog (20 s quick / 120 s thorough); plus accepted-but-unusual inputs (integer-valued floats for the size ranges and the integer fields, size ranges with an upper bound of 10^6 ... 2^63, tests of ~100 time points, bit-identical geos, nullable response dtypes) and, in ~4% of the cases, 65-72 geos of which 3-4 are treatable, one control geo per design and a budget cap just above the dearest single geo (quick tier: exhaustive search only for these). '
         'Non-trivial = some search returned [] or ValueError, or the admitted set is smaller than 2; distinct by '
         '(eligibility class vector, set of specified constraints, outcomes).')
 BUDGET = {'quick': 1600, 'thorough': 60000}
@@ -34,7 +34,7 @@ def _alarm(signum, frame):
 @st.composite
 def _special(draw):
   """Accepted but unusual inputs: integer-valued float size ranges, long tests (n_test ~ 100), bit-identical geos."""
-  kind = draw(st.sampled_from(['float-ranges', 'long-test', 'identical-geos']))
+  kind = draw(st.sampled_from(['float-ranges', 'float-ranges', 'long-test', 'identical-geos', 'big-upper-bound']))
   if kind == 'long-test':
     spec = draw(G.search_spec(max_geos=3, min_geos=2, constraint_p=0.15, max_dates=12))
     n_test = draw(st.sampled_from([96, 97, 98, 99, 100, 104, 120]))
@@ -53,6 +53,18 @@ def _special(draw):
     if draw(st.booleans()):
       spec['params']['control_geos_range'] = list(draw(st.sampled_from([(1, 1), (1, 2), (2, 3), (1, 4)])))
     spec['params']['float_ranges'] = True
+    # ... and the integer fields as well (n_test=7.0, n_geos_max=3.0 ...)
+    spec['params']['float_ints'] = sorted(draw(st.sets(st.sampled_from(['n_test', 'n_designs', 'n_geos_max', 'n_pretest_max']), max_size=4)))
+    if 'n_geos_max' in spec['params']['float_ints'] and spec['params'].get('n_geos_max') is None:
+      spec['params']['n_geos_max'] = draw(st.sampled_from([2, 3]))
+  elif kind == 'big-upper-bound':
+    spec = draw(G.search_spec(max_geos=5, min_geos=2, constraint_p=0.25))
+    big = draw(st.sampled_from([10 ** 6, 10 ** 30, 2 ** 63]))
+    which = draw(st.sampled_from([['treatment_geos_range'], ['control_geos_range'], ['treatment_geos_range', 'control_geos_range']]))
+    for k in which:
+      if spec['params'].get(k) is None:
+        spec['params'][k] = [1, 2]
+    spec['params']['big_upper'] = {k: big for k in which}
   else:
     spec = draw(G.search_spec(max_geos=5, min_geos=3, constraint_p=0.2, elig_style=draw(st.sampled_from(['mixed', 'all-control', 'free']))))
     n = len(spec['panel']['ids'])
